@@ -28,6 +28,19 @@ mkdir -p "$BIN" "$W/tmp"
     cat "$REPO/go.sum" "$REPO/v2/go.sum" | sort -u > "$BIN/alt.sum"
     go build -modfile="$BIN/alt.mod" -o "$BIN/jdmc" .
   fi
+  # map-order-controlled build (C15 order leg): rewrite map ranges of $REPO/v2 into an overlay
+  rm -f "$BIN/jdmc-ord"
+  MO="$BIN/maporder-overlay"
+  rm -rf "$MO"; mkdir -p "$MO"
+  if go build -o "$BIN/maporder" ./cmd/maporder && "$BIN/maporder" "$REPO/v2" "$MO" >&2; then
+    if [ "$REPO" = "/repo" ]; then
+      go build -tags verifmaporder -overlay "$MO/overlay.json" -o "$BIN/jdmc-ord" . || echo "build.sh: map-order build failed; the C15 order leg will be skipped" >&2
+    else
+      go build -modfile="$BIN/alt.mod" -tags verifmaporder -overlay "$MO/overlay.json" -o "$BIN/jdmc-ord" . || echo "build.sh: map-order build failed; the C15 order leg will be skipped" >&2
+    fi
+  else
+    echo "build.sh: maporder rewrite failed; the C15 order leg will be skipped" >&2
+  fi
   (cd "$REPO/v2" && go build -o "$BIN/jd-v2" ./jd)
   (cd "$REPO" && go build -o "$BIN/jd-top" .)
 ) 9>"$W/build.lock"
